@@ -53,11 +53,17 @@ fn gen_len(rng: &mut Rng, max_len: usize) -> usize {
 }
 
 pub fn gen_base(rng: &mut Rng, max_chunks: usize, max_len: usize) -> Base {
-    let n = match rng.below(6) {
+    let mut n = match rng.below(6) {
         0 => 1,
         1 => rng.urange(1, 4),
         _ => rng.log_range(1, max_chunks as u64) as usize,
     };
+    // chunk counts around internal caps (average-xorb preallocation 1152, MAX_XORB_CHUNKS 8192)
+    let many = max_chunks >= 8192 && rng.chance(1, 12);
+    if many {
+        n = *rng.pick(&[1151usize, 1152, 1153, 1154, 2000, 4096, 8191, 8192]);
+    }
+    let max_len = if n > 600 { max_len.min(48) } else { max_len };
     let scheme = *rng.pick(&[
         None,
         Some(CompressionScheme::None),
@@ -298,6 +304,9 @@ pub fn run_roundtrip(args: &Args, rep: &mut Report) {
                 rep.count(P, "ranges_checked", nr);
                 if fallback {
                     rep.count(P, "xorbs_with_incompressible_fallback", 1);
+                }
+                if n > 1152 {
+                    rep.count(P, "xorbs_with_more_than_1152_chunks", 1);
                 }
                 let sig = format!(
                     "{}|n{}|c{:x}|fb{}|r4:{}",
@@ -731,7 +740,11 @@ pub fn run_validate(args: &Args, rep: &mut Report) {
     for (k, mut rng) in case_iter(args, 0xC08, 40) {
         // small chunks keep a mutant cheap; a few bases use full-size chunks
         let big = rng.chance(1, 10);
-        let b = gen_base(&mut rng, if big { 40 } else { 12 }, if big { 131072 } else { 700 });
+        // every 16th base has more chunks than the footer parsers preallocate for (1152): completeness only
+        let many = k % 16 == 5;
+        let b = if many { gen_base(&mut rng, 8192, 16) } else { gen_base(&mut rng, if big { 40 } else { 12 }, if big { 131072 } else { 700 }) };
+        let many = many && b.chunks.len() > 600;
+        let muts_per_base = if many { 6 } else { muts_per_base };
         let n = b.chunks.len();
         let Ok((_cas, buf, _)) = serialize_base(&b) else {
             rep.inconclusive(P, "serialize failed on a valid base");
@@ -782,11 +795,14 @@ pub fn run_validate(args: &Args, rep: &mut Report) {
                 rep.violation(P, "val-async-accepts-wrong-hash", "async validator accepts a valid xorb for another hash", wit("none", 0, form));
             }
             bump("valid_forms_checked");
+            if b.chunks.len() > 1152 {
+                bump("valid_forms_checked_over_1152_chunks");
+            }
         }
 
         // ---- mutants
         let mut mutants: Vec<(Vec<u8>, String)> = Vec::new();
-        let exhaustive = !big && exhaustive_every != 0 && k % exhaustive_every == 0;
+        let exhaustive = !big && !many && exhaustive_every != 0 && k % exhaustive_every == 0;
         if exhaustive {
             // every byte of every chunk header and of the footer (+ info_length), 4 replacement values each
             let mut positions: Vec<usize> = Vec::new();
